@@ -60,6 +60,11 @@ structure RWCfg where
       end of the record from there with `SkipInstance`, the way pass 1 found it, instead of trusting the position the
       failed read left behind -/
   errorResyncsFromStart : Bool := false
+  /-- the elements of an aggregate of NUMBER are read with `ReadNumber` (`RealAggregate::ReadValue` looks at the element
+      type); otherwise with `ReadReal`, as the elements of an aggregate of REAL are -/
+  numberElemReadsNumber : Bool := false
+  /-- the element loops of `STEPaggregate::ReadValue` report a delimiter that stands where an element must stand -/
+  aggrReportsMissingElement : Bool := false
 deriving Repr, DecidableEq, Inhabited
 
 /-- `in >> c` into a variable that keeps its value when nothing is extracted -/
@@ -369,8 +374,7 @@ def selectRead {F} (env : Env F) (sd : SelectD) (s : IStream) : M (Sev × Elem F
       | none => pure (.warning, .atom .unset, s3)
 
 /-- one element of an aggregate including the `CheckRemainingInput` of the element loop -/
-def elemRead {F} (env : Env F) (ty : ElemTy) (s : IStream) : M (Sev × Elem F × IStream) := do
-  let s0 := if env.cfg.aggrSkipsComments then readTokenSeparator s else s
+def elemReadCore {F} (env : Env F) (ty : ElemTy) (s0 : IStream) : M (Sev × Elem F × IStream) := do
   match ty with
   | .select n =>
     match env.dict.select? n with
@@ -384,10 +388,33 @@ def elemRead {F} (env : Env F) (ty : ElemTy) (s : IStream) : M (Sev × Elem F ×
     let (t, s1, e) ← undefRead env.lex s0
     let (s2, e2) := checkRemainingInput env.lex (some attrDelims) s1 e
     pure (e2, .atom (if t.isEmpty then .unset else .undef t), s2)
+  | .number =>
+    if env.cfg.numberElemReadsNumber then
+      let (v, s1, e) := readNumber env.ops env.lex (some attrDelims) s0 .null
+      let (s2, e2) := checkRemainingInput env.lex (some attrDelims) s1 e
+      pure (e2, .atom (valueToAtom (realValue env.ops v)), s2)
+    else
+      let (e, a, s1) ← scalarNodeRead env ty s0
+      let (s2, e2) := checkRemainingInput env.lex (some attrDelims) s1 e
+      pure (e2, .atom a, s2)
   | _ =>
     let (e, a, s1) ← scalarNodeRead env ty s0
     let (s2, e2) := checkRemainingInput env.lex (some attrDelims) s1 e
     pure (e2, .atom a, s2)
+
+/-- `const int next = in.peek(); missing = next == ',' || next == ')'` of the repaired element loops -/
+def elemMissing (cfg : RWCfg) (s : IStream) : Bool × IStream :=
+  if cfg.aggrReportsMissingElement then
+    let (c, s1) := s.peekC
+    (c == 44 || c == 41, s1)
+  else (false, s)
+
+/-- one round of the element loop up to and including its `CheckRemainingInput` and the "missing element" verdict -/
+def elemRead {F} (env : Env F) (ty : ElemTy) (s : IStream) : M (Sev × Elem F × IStream) := do
+  let sA := if env.cfg.aggrSkipsComments then readTokenSeparator s else s
+  let (miss, s0) := elemMissing env.cfg sA
+  let (e, v, sZ) ← elemReadCore env ty s0
+  pure (if miss then e.greater .warning else e, v, sZ)
 
 /-- element loop of `STEPaggregate::ReadValue` after the first peek: `c` is the last character looked at -/
 def aggrLoop {F} (env : Env F) (ty : ElemTy) : Nat → Sev → List (Elem F) → Byte → IStream →
